@@ -104,6 +104,7 @@ type PathSample struct {
 }
 
 type Report struct {
+	Outcomes     []*PathOutcome
 	Entry        string
 	Paths        int
 	Ends         map[string]int
@@ -146,6 +147,9 @@ func (r *Report) add(pr *PathResult) {
 	defer r.mu.Unlock()
 	r.Paths++
 	r.Ends[pr.End]++
+	if pr.Outcome != nil {
+		r.Outcomes = append(r.Outcomes, pr.Outcome)
+	}
 	if pr.EndMsg != "" {
 		if _, ok := r.EndMsgs[pr.End]; !ok || pr.End == "unsupported" || pr.End == "panic" {
 			if len(r.EndMsgs) < 40 {
@@ -261,6 +265,9 @@ func (p *Program) RunPathBody(entry *ssa.Function, body func(m *Machine), opt *O
 		}
 		m.Res.End = "ok"
 	}()
+	if m.Res.Outcome == nil && (m.Res.End == "deadlock" || m.Res.End == "goroutine-panic") {
+		m.SetOutcome(m.Res.End, nil, m.Res.EndMsg)
+	}
 	m.Res.Decisions = m.decisions
 	m.Res.Steps = m.steps
 	for u := range m.uninit {
